@@ -236,6 +236,17 @@ func readers(x, y string) c18Call {
 	}}
 }
 
+// formatCall formats shared operands through fmt with a field width (Decimal.Format writes padding).
+func formatCall(format string, ops ...string) c18Call {
+	return c18Call{"Sprintf(" + format + ")", func(s *c18Shared) string {
+		var args []interface{}
+		for _, o := range ops {
+			args = append(args, s.ops[o])
+		}
+		return fmt.Sprintf(format, args...)
+	}}
+}
+
 type c18Scenario struct {
 	Name    string
 	P       uint32
@@ -259,6 +270,7 @@ func c18Scenarios() []c18Scenario {
 		{"trapped conditions: quo(1/0)||quo(0/0)||sqrt(-1) (different trap errors from one shared Context)", 9, [][]c18Call{t(ctxCall2("Quo", cQuo, "1", "0")), t(ctxCall2("Quo", cQuo, "0", "0")), t(ctxCall1("Sqrt", cSqrt, "m1"))}, false, 1, 2},
 		{"trapped conditions: mul-overflow;rem(1,0)||quointeger-impossible;ln(-1)", 3, [][]c18Call{t(ctxCall2("Mul", cMul, "big", "big"), ctxCall2("Rem", cRem, "1", "0")), t(ctxCall2("QuoInteger", cQuoI, "b", "y7"), ctxCall1("Ln", cLn, "m1"))}, false, 1, 2},
 		{"negative operands: readers(n,nb)||add(n,nb)||readers(n2,n) (read-only methods on shared negative decimals)", 12, [][]c18Call{t(readers("n", "nb")), t(ctxCall2("Add", cAdd, "n", "nb")), t(readers("n2", "n"))}, false, 1, 2},
+		{"fmt with field widths: %040v||%-40v %40v||%+038e (padding written by Decimal.Format)", 9, [][]c18Call{t(formatCall("%040v", "a")), t(formatCall("%-40v|%40v", "n", "a")), t(formatCall("%+038e|% 012f", "t", "q"))}, false, 1, 2},
 		{"sqrt||sqrt (WithPrecision on the shared context)", 9, [][]c18Call{t(ctxCall1("Sqrt", cSqrt, "a")), t(ctxCall1("Sqrt", cSqrt, "b"))}, true, 1, 1},
 		{"ln||log10 (ln10 / 1/ln10 tables at different precisions)", 7, [][]c18Call{t(ctxCall1("Ln", cLn, "a")), t(ctxCall1("Log10", cLog10, "b"))}, true, 1, 1},
 		{"exp||ln-near-one (power series)", 6, [][]c18Call{t(ctxCall1("Exp", cExp, "t")), t(ctxCall1("Ln", cLn, "z"))}, true, 1, 1},
